@@ -101,6 +101,8 @@ def outcome(fn):
 def main():
     req = json.load(sys.stdin)
     out = []
+    if req.get("reclimit"):
+        sys.setrecursionlimit(int(req["reclimit"]))      # the interpreter's default, for checks about process-wide settings
     if req.get("cwd") == "@removed":
         # a working directory that no longer exists (a scratch directory cleaned up under the process)
         import tempfile
